@@ -277,9 +277,12 @@ def fam_eig_sparse(d, seed):
     ndof = dom.dim
     bc = np.sort(np.concatenate([dom.nodes[0, :, :].flatten() * ndof + k for k in range(ndof)]))
     x0 = val.pos(dom.nel, 101, seed, 0.5, 1.0)
+    if d.get('xtab') == 'frac37':
+        x0 = 0.3 + 0.7 * ((np.arange(dom.nel) * 0.37 + d.get('xshift', 0.0)) % 1.0)
     sK = pym.Signal('K')
     sM = pym.Signal('M')
-    pym.AssembleStiffness(pym.Signal('x', x0), sK, dom, bc=bc, bcdiagval=1e3).response()
+    kbc = {} if d.get('kbc') == 'default' else dict(bcdiagval=1e3)
+    pym.AssembleStiffness(pym.Signal('x', x0), sK, dom, bc=bc, **kbc).response()
     pym.AssembleMass(pym.Signal('x', x0), sM, dom, ndof=ndof, bc=bc, bcdiagval=1.0, material_property=1.0).response()
     K, M = sK.state, sM.state
     gen = d.get('generalized', True)
@@ -375,3 +378,7 @@ def lattice(tier, seed):
     for g in ([[2, 2, 0]] if q else [[2, 2, 0], [3, 2, 0], [1, 1, 2]]):
         for gen in (True, False):
             yield dict(fam='EigenSolveSparse', grid=g, generalized=gen, nmodes=3, sigma=0.0)
+    # inputs on which the singular adjoint system (A - lam B) hits an exactly singular LU factor
+    for sh in (0.0, 23 * 0.113, 30 * 0.113):
+        yield dict(fam='EigenSolveSparse', grid=[3, 2, 0], generalized=True, nmodes=3, sigma=0.0, xtab='frac37',
+                   xshift=sh, kbc='default')
